@@ -28,7 +28,7 @@ INITS = [{'theta': [0.0, 'rad'], 'w': [0.0, 'rad/s']},
          {'theta': [0.5, 'rad'], 'w': [3.0, 'rad/s']},
          {'theta': [-1.0, 'rad'], 'w': [-2.0, 'rad/s']},
          {'theta': [45.0, 'deg'], 'w': [20.0, 'rpm']}]
-SCHEDULES = ['run', 'run+continue', 'stop', 'reset-rerun', 'reset-reinit-other-units', 'redeclare-then-continue']
+SCHEDULES = ['run', 'run+continue', 'stop', 'reset-rerun', 'reset-reinit-other-units', 'redeclare-then-continue', 'coast']
 
 
 def shards(tier):
@@ -61,6 +61,9 @@ def schedule_ops(name, spec, duty=None):
         return [('run', DT, [1.0, 'sec'], duty, ['encoder', n - 1, '>=', [0.3, 'rad']])]
     if name == 'reset-rerun':
         return [('run', DT, [0.5, 'sec'], duty, None), ('reset',), ('run', DT, [0.5, 'sec'], duty, None)]
+    if name == 'coast':
+        # motor with current data switched off (duty 0, then inside the dead band) and no load: every torque and acceleration exactly 0
+        return [('run', DT, [0.75, 'sec'], [1, 1, 0, 0, 0.02, 0.02, 1], None)]
     if name == 'reset-reinit-other-units':
         init = spec['init']
         th = [si.convert(si.si(init['theta'][0], 'AngularPosition', init['theta'][1]), 'AngularPosition', 'rad', 'rot'), 'rot']
@@ -77,9 +80,13 @@ def schedule_ops(name, spec, duty=None):
 
 def check_case(acc, chain_l, locking, load, init, sched, overload=False):
     chain_l = [tuple(x) for x in chain_l]
-    spec = menu.assign(chain_l, locking=locking, init=init)
+    spec = menu.assign(chain_l, locking=locking, init=init, motor=menu.MOTOR_CUR if sched == 'coast' else None)
     stall = menu.stall_at_output(spec)
     spec['load'] = load_spec(load[0], load[1] * (20 if overload else 1), stall)
+    if sched == 'coast':
+        if load[0] != 'const':
+            return
+        spec['load'] = ['const', 0.0]
     case = {'kind': 'case', 'chain': chain_l, 'locking': locking, 'load': list(load), 'init': init,
             'sched': sched, 'overload': overload}
     name = menu.chain_name(chain_l)
@@ -113,7 +120,7 @@ def check_case(acc, chain_l, locking, load, init, sched, overload=False):
             d = dict(detail)
             d['instant'] = k
             d['chain'] = name
-            acc.violation(f'C01/{sfx}' + (f'/{sched}' if sched in ('reset-reinit-other-units', 'redeclare-then-continue') else ''), clause, case, d)
+            acc.violation(f'C01/{sfx}' + (f'/{sched}' if sched in ('reset-reinit-other-units', 'redeclare-then-continue', 'coast') else ''), clause, case, d)
         acc.transitions += traj.coupling(obs, chain, emit)
         nk = len(obs['time'])
         for k in range(nk):
